@@ -7,6 +7,7 @@ package main
 
 import (
 	"bytes"
+	"encoding"
 	"fmt"
 	"math/big"
 	"reflect"
@@ -494,7 +495,20 @@ func setupSizeRule(broken []string, setup interface{}, input []byte) []string {
 	if raw, ok := m["Setup"]; !ok || cbor.Unmarshal(raw, &b) != nil {
 		return broken
 	}
-	if mem := rawMemory(setup); mem != nil && len(b) != len(mem) {
+	// the size a setup of this role has: the length of the object's own encoding (robust against fields
+	// that are not serialised); the raw size of the struct if it has no encoder
+	want := -1
+	if bm, ok := setup.(encoding.BinaryMarshaler); ok && !isNil(setup) {
+		if enc, err := bm.MarshalBinary(); err == nil {
+			want = len(enc)
+		}
+	}
+	if want < 0 {
+		if mem := rawMemory(setup); mem != nil {
+			want = len(mem)
+		}
+	}
+	if want >= 0 && len(b) != want {
 		broken = append(broken, "OT setup of the wrong size (the encoding's Setup field is not exactly as long as the setup block of this role)")
 	}
 	return broken
